@@ -56,7 +56,10 @@ def record(prop, name, kind, r, detail, scr):
         doc["how"] = ("cd <scratch>/%s && cargo kani -Z stubbing --harness %s  (harness file under /verif/harness; "
                       "assignment = values of kani::any() in call order)" % (xv.CRATE_DIR[h.crate], name))
     else:
-        doc.update({k: r[k] for k in ("counterexample", "lemma", "function") if k in r})
+        doc.update({k: r[k] for k in ("counterexample", "lemma", "function", "bad_key", "bounds", "functions") if k in r})
+        name = name + "-" + re.sub(r"\W+", "_", str(r.get("bad_key", "")))[:60]
+        path = os.path.join(REPLAY_DIR, "%s-%s.json" % (prop, name))
+        doc["harness"] = name.split("-")[0]
         confirmed = bool(r.get("replayed", False))
         doc["how"] = r.get("how", "")
     native = r.get("native_replay")
